@@ -22,6 +22,13 @@ ASSUMPTIONS = ["the cost matrix is read only through D (checked: initialisation 
 TECHNIQUE = "finite ordering/constant domains interpreted over the AST (F4), affine loop ranges (F3), parameter liveness (F7)"
 
 
+def vr(v):
+    if isinstance(v, Rat):
+        a = v.single_atom()
+        return a if a is not None else repr(v)
+    return repr(v)
+
+
 def _consts(ctx):
     m = ctx.prog.module(SEG)
     out = {}
@@ -331,6 +338,26 @@ def rule_C(ctx):
         okf = len(pc) == 1 and len(pc[0].args) >= 2 and isinstance(pc[0].args[1], Rat) and pc[0].args[1].single_atom() == mode
         ctx.check(okf, 'C12.C', f, 'optimalSegmentation forwards its mode argument to optimalPartition',
                   witness={'call': unparse(pc[0].node) if pc else None}, node=f.node, key='fwd-mode')
+        # the matrix handed over: the filled triangle mirrored, every value kept as computed (whatever its sign)
+        if pc and pc[0].args:
+            m = pc[0].args[0]
+            mt = vr(m)
+            sym = False
+            if isinstance(m, Rat) and m.ispoly():
+                ats = sorted(m.atoms())
+                if len(ats) == 2:
+                    base = [a_ for a_ in ats if a_.isidentifier()]
+                    if len(base) == 1 and set(ats) - set(base) <= {'np.transpose(%s)' % base[0], '%s.T' % base[0], '%s.transpose()' % base[0], 'numpy.transpose(%s)' % base[0]}:
+                        sym = w.rel.is_zero(m - Rat.atom(ats[0]) - Rat.atom(ats[1]))
+                elif len(ats) == 1 and ats[0].isidentifier():
+                    sym = True
+            clip = any(mt.startswith(x) for x in ('np.maximum(', 'np.minimum(', 'np.abs(', 'np.clip(', 'np.fmax(', 'np.fmin(', 'abs('))
+            if clip:
+                ctx.violation('C12.C', f, 'the cost matrix handed to the dynamic programme holds the costs as the cost function returned them',
+                              {'matrix passed': mt, 'why': 'the unfilled triangle is 0: an element-wise max/min/abs with the transpose replaces every negative '
+                               '(resp. positive) cost by 0, so a criterion with negative values is optimised on the wrong table'}, node=pc[0].node, key='sym-clip')
+            else:
+                ctx.recognise(sym, 'C12.C', f, 'the cost matrix is mirrored by adding its transpose (the other triangle is zero): values unchanged', node=pc[0].node)
         cc = [e for e in o.state.events if e.kind == 'call' and e.name == cost]
         if not cc:
             raise shape_error('optimalSegmentation never calls the cost function', f.loc())
